@@ -7,6 +7,8 @@ compared with the model's own search (`fillBefore`, `findWrapping`), which the t
 Search: brute-force enumeration of fillings up to length 4 and of wrapper chains up to length 3 on
 the real automata; create_and_fill results are validated by check() and must contain the given
 content in order.
+find_wrapping is tied exactly (same chain: the answer is a function of the automata's edge order), and so is
+NodeType.create_and_fill (same node / None / exception class as `Schema.createAndFill`, lean/PM/CreateFill.lean).
 """
 import itertools
 
@@ -14,7 +16,7 @@ from prosemirror.model import Fragment
 
 from .. import core, gen, schemas
 from ..core import outcome
-from .c07 import all_nodes
+from .c07 import all_nodes, built_answer
 
 
 def states_of(start):
@@ -89,6 +91,17 @@ def cf_contents(rng, schema, frags):
     return out
 
 
+def cf_partial_contents(rng, docs, t):
+    """contents that need filling: the children of a generated node of type t with some of them left out"""
+    out = []
+    hosts = [n for d in docs for n in all_nodes(d) if n.type is t and n.child_count]
+    rng.shuffle(hosts)
+    for n in hosts[:2]:
+        kids = [c for c in n.content.content if rng.random() < 0.6]
+        out.append(Fragment.from_(kids))
+    return out
+
+
 def run(ctx):
     core.lean_phase(ctx)
     rng = ctx.rng
@@ -98,6 +111,10 @@ def run(ctx):
         outs = ctx.driver.run(reqs) if reqs else []
         for req, (op, replay, impl), out in zip(reqs, metas, outs):
             ctx.count("model_requests")
+            if op == "createAndFill":
+                if out != impl:
+                    ctx.mismatch("create_and_fill (exact)", replay, impl, out)
+                continue
             if "ok" not in out:
                 ctx.mismatch(op, replay, "answer", out)
                 continue
@@ -112,8 +129,10 @@ def run(ctx):
             else:
                 if impl is not None and o.get("implIsChain") is not True:
                     ctx.mismatch("isWrapChain(real answer)", replay, True, o)
-                if (o.get("model") is None) != (impl is None) or (impl is not None and len(o["model"]) != impl):
-                    ctx.mismatch("wrap some/none/length", replay, impl, o)
+                # exact: compute_wrapping's answer is a function of the edge order of the automata (FIFO queue,
+                # `for i in range(len(match.next))`, seen-marking at append time), which the model follows step by step
+                if o.get("model") != impl:
+                    ctx.mismatch("wrap chain (exact)", replay, impl, o)
         del reqs[:], metas[:]
 
     fam = schemas.family()
@@ -193,14 +212,18 @@ def run(ctx):
                             ctx.violation("wrap-incomplete", "find_wrapping returned nothing although a chain exists", dict(replay, chain=[x.name for x in bw]))
                     reqs.append({"op": "wrap", "s": info.lean_id, "ty": info.nid[t.name], "q": qi, "target": info.nid[target.name],
                                  "impl": None if chain is None else [info.nid[x.name] for x in chain]})
-                    metas.append(("wrap", replay, None if chain is None else len(chain)))
+                    metas.append(("wrap", replay, None if chain is None else [info.nid[x.name] for x in chain]))
             # ---- create_and_fill
-            if t.has_required_attrs():
-                continue
-            for content in cf_contents(rng, schema, frags):
-              st, node = outcome(lambda: t.create_and_fill(None, content))
-              replay = {"schema": info.name, "type": t.name, "content": content.to_json()}
-              ctx.case(["create_and_fill", info.name, t.name, content.to_json()])
+            for content in cf_contents(rng, schema, frags) + cf_partial_contents(rng, docs, t):
+              attrs = gen.gen_attrs(rng, t) if (t.has_required_attrs() or rng.random() < 0.3) else None
+              # node marks: a canonical set (check() demands one), sometimes handed over in reverse order (set_from sorts)
+              marks = gen.gen_marks(rng, schema, rng.choice(types), 0.4) if rng.random() < 0.5 else None
+              if marks and len({m.type.rank for m in marks}) == len(marks) and rng.random() < 0.5:
+                  marks = list(reversed(marks))
+              st, node = outcome(lambda: t.create_and_fill(attrs, content, marks))
+              replay = {"schema": info.name, "type": t.name, "content": content.to_json(), "attrs": attrs,
+                        "marks": None if marks is None else [m.to_json() for m in marks]}
+              ctx.case(["create_and_fill", info.name, t.name, content.to_json(), attrs, replay["marks"]])
               if st != "ok":
                   ctx.violation("create_and_fill-raises", f"create_and_fill raised {node}", replay)
               elif node is not None:
@@ -214,8 +237,19 @@ def run(ctx):
                       ctx.violation("create_and_fill", f"create_and_fill result invalid ({err}) or does not contain the given content in order",
                                     dict(replay, result=node.to_json()))
                   ctx.count("create_and_fill:some")
+                  if len(kids) > len(given):
+                      ctx.count("create_and_fill:some:with-fillers")
               else:
                   ctx.count("create_and_fill:none")
+              reqs.append({"op": "createAndFill", "s": info.lean_id, "ty": info.nid[t.name], "attrs": info.attrs(t, attrs),
+                           "content": info.frag(content), "marks": info.marks(marks or [])})
+              metas.append(("createAndFill", replay, built_answer(info, st, node)))
+        # the edge of the model's universe: on the text type the code returns a plain Node of the text type (no oracle here)
+        tt = schema.nodes["text"]
+        st, node = outcome(lambda: tt.create_and_fill())
+        ctx.count("create_and_fill:text-type")
+        reqs.append({"op": "createAndFill", "s": info.lean_id, "ty": info.nid["text"], "attrs": [], "content": [], "marks": []})
+        metas.append(("createAndFill", {"schema": info.name, "type": "text"}, built_answer(info, st, node)))
     flush()
     return ctx.finish(
         rule="a case is (schema, node type, match state, following fragment + start index, to_end) for fill_before, "
